@@ -42,7 +42,7 @@ def main():
         fixes = [l.strip() for l in open(kf) if l.startswith('fixed:')]
     man = {
         'version': 1,
-        'setup_cmd': 'cd coq && coq_makefile -f _CoqProject -o Makefile && timeout 3000 make -j16 && cd .. && /venv/bin/python harness/selfcheck.py',
+        'setup_cmd': 'python3 harness/setup.py',
         'hooks': {
             'guard': 'WPULL_VERIF',
             'enable': 'none needed: the launcher (harness/compat + harness/impl/*) monkeypatches fakes, fault plans and schedulers from outside /repo',
